@@ -256,6 +256,11 @@ class TDS(BaseRoutine):
         # if `dae.n == 1`, `calc_h_first` depends on new `dae.gy`
         self.calc_h()
 
+        # when replaying, the step at the initial time takes the first row;
+        # `calc_h` has moved the row pointer without advancing the time
+        if self.data_csv is not None:
+            self.k_csv = 0
+
         # allocate for internal variables
         self.x0 = np.zeros_like(system.dae.x)
         self.y0 = np.zeros_like(system.dae.y)
